@@ -124,7 +124,7 @@ def check(ctx):
             sw = None
             for b in body.reachable:
                 ve = util.variant_edges(body, b)
-                if ve and op_local(["c", {"l": ve[0], "p": []}]) == cc["dst"]["l"]: sw = (b, ve)
+                if ve and ve[0] in util.copies_of(body, cc["dst"]["l"]): sw = (b, ve)
             if sw is None:
                 ctx.ob("R19.2", f"{k}|result-matched", False, body.loc(cb), "the CAS result is not matched on Ok/Err")
             else:
